@@ -6,7 +6,9 @@ interleaving of {load, forced load, enforce, edit file}:
  (i)   each enforcer's effective policy (decisions + printed rule store) equals that of a fresh enforcer built from
        pristine, re-constructed defaults;
  (ii)  a deep attribute snapshot of the caller-owned objects equals the initial snapshot;
- (iii) printed rules never grow between two steps that do not edit that enforcer's files."""
+ (iii) printed rules never grow between two steps that do not edit that enforcer's files.
+Strata D0 / D: policy directories with several files defining the same names, enforcers built with overwrite=False or the
+default, touches (same bytes, newer mtime) and edits of single files."""
 import itertools
 
 from pv.core import env
@@ -21,18 +23,24 @@ RULE = ('histories over {load, forced load, enforce, edit file} x enforcer index
         'bound for two enforcers (one with enforce_new_defaults off, one on); R = random interleavings of 5-30 steps over '
         '1-3 enforcers with random option values and file contents, with or without a policy directory (edited too) and with or without a main file (which may be deleted); shared defaults with and without deprecated '
         'predecessors (renamed, same-name with changed default, plain). Non-trivial = the history has at least two loads '
-        'of one enforcer or involves two enforcers; distinct = distinct (configuration, history). Stratum `overlap`: two new enforcers registered with the SAME default objects (own files, opposite enforce_new_defaults) perform their first load at the same time, each on its own thread (second one runs at sampled line boundaries of the first, and both in flight): each decides as after a single load, the shared objects are unchanged. Stratum `H1` (faults, exhaustive): ONE enforcer, every history up to the length bound over {load, forced load, enforce, edit, remove the main file, write unparseable content to the main file} that contains a removal or an unparseable write and ends with parseable files (a later edit re-creates / repairs the file); the comparison with a fresh enforcer happens only after the last step, so that the enforcement calls of the comparison itself do not load in between (every prefix is a history of its own). Stratum `F` (faults, random): 1-2 enforcers, random histories over the same operations plus policy-directory edits / unparseable policy-directory files, with fault-then-load-then-repair sequences inserted, every unparseable write repaired later in the history, compared after every step or only after a random subset of steps. While the current files of an enforcer are unparseable (a fresh enforcer raises too) nothing is judged for it (counted as unconstrained.policy-file-unparseable; the statement does not say what a long-lived enforcer does meanwhile); as soon as they are valid again the implicit, explicit and forced loads must all agree with a fresh enforcer.')
+        'of one enforcer or involves two enforcers; distinct = distinct (configuration, history). Stratum `overlap`: two new enforcers registered with the SAME default objects (own files, opposite enforce_new_defaults) perform their first load at the same time, each on its own thread (second one runs at sampled line boundaries of the first, and both in flight): each decides as after a single load, the shared objects are unchanged. Stratum `H1` (faults, exhaustive): ONE enforcer, every history up to the length bound over {load, forced load, enforce, edit, remove the main file, write unparseable content to the main file} that contains a removal or an unparseable write and ends with parseable files (a later edit re-creates / repairs the file); the comparison with a fresh enforcer happens only after the last step, so that the enforcement calls of the comparison itself do not load in between (every prefix is a history of its own). Stratum `F` (faults, random): 1-2 enforcers, random histories over the same operations plus policy-directory edits / unparseable policy-directory files, with fault-then-load-then-repair sequences inserted, every unparseable write repaired later in the history, compared after every step or only after a random subset of steps. While the current files of an enforcer are unparseable (a fresh enforcer raises too) nothing is judged for it (counted as unconstrained.policy-file-unparseable; the statement does not say what a long-lived enforcer does meanwhile); as soon as they are valid again the implicit, explicit and forced loads must all agree with a fresh enforcer. Strata `D0` (systematic) and `D` (random): enforcers constructed with overwrite=False as well as with the default / an explicit overwrite=True (one more option value of the generated worlds; the fresh enforcer of the comparison is built with the same options), a main file or none and a policy directory of two or three files that define overlapping names with different values (the sorted file order decides), and the operations touch (newer modification time, identical bytes) and edit on each single file of the directory and on the main file, a directory file appearing later, and for overwriting enforcers the removal of one directory file; D0 = one enforcer, load, then ONE touch / value edit of ONE file, then load / enforce / forced load, compared after every step or only at the end. An enforcer that does not overwrite merges what it reads into the living store and never removes or recomputes an entry, so it is judged (against a fresh enforcer with the same options that loads the CURRENT files once) only while every definition (file, name) made so far is still made by that file and the file values feeding a default-derived entry are as at construction; otherwise the step is counted as unconstrained.non-overwrite-enforcer-keeps-removed-names / unconstrained.non-overwrite-enforcer-keeps-entry-derived-from-default.')
 ASSUMPTIONS = ['sharing of sub-objects between registered copies is not alteration: the statement is behavioural, so only '
                'observable attributes (names, check strings, printed checks, tree shape, deprecated fields, scope types) are snapshotted',
-               'logical clock on every edit (file and directory)']
+               'logical clock on every edit (file and directory)',
+               '"loading once" for an enforcer built with overwrite=False = a fresh enforcer with the same options loading the current files once; '
+               'judged only while no definition was taken out of its files (such an enforcer keeps entries by design)']
 LEVEL_TEXT = ('All interleavings up to length 3 (thorough: 4) for two enforcers plus seeded random longer ones over up to '
               'three; comparisons after every step. Interleavings are unbounded, so bounded-exhaustive plus sampling is the level. '
               'Histories with faults (main file removed / momentarily unparseable): all of them up to length 4 (thorough: 5) for one enforcer, compared after '
-              'the last step, plus random ones over one or two enforcers compared after every step or after a random subset of steps.')
+              'the last step, plus random ones over one or two enforcers compared after every step or after a random subset of steps. '
+              'Policy directories with two or three files and enforcers with / without overwrite: every (file, touch or value edit, following load flavour) '
+              'combination for one enforcer (480 histories) plus random histories of 4-12 steps over one or two enforcers (quick 160, thorough 6000).')
 LEVEL_NOTE = 'trusted: a fresh Enforcer with re-constructed defaults as the oracle of "loaded once"; the attribute snapshot function'
 PLAN = {'quick': dict(shards=8, wall=150), 'thorough': dict(shards=16, wall=500)}
 MIN = {'overlapping_evaluations': 200, 'evaluations': 300, 'steps_compared': 1500, 'snapshots_compared': 1500, 'forced_reloads': 200, 'merged_or_checks_seen': 100,
-       'cases.H1': 300, 'cases.F': 30, 'forced_reloads_after_removal': 60, 'loads_raising_while_unparseable': 100, 'recoveries_judged': 100}
+       'cases.H1': 300, 'cases.F': 30, 'forced_reloads_after_removal': 60, 'loads_raising_while_unparseable': 100, 'recoveries_judged': 100,
+       'cases.D0': 150, 'cases.D': 50, 'nonoverwrite_steps_compared_after_touch_or_edit': 200, 'multi_file_directory_steps_compared': 600,
+       'touches_one_directory_file': 150, 'edits_one_directory_file': 100}
 ANCHORS = ['oslo_policy.policy:Enforcer.register_default', 'oslo_policy.policy:Enforcer._handle_deprecated_rule',
            'oslo_policy.policy:Enforcer.load_rules', 'oslo_policy.policy:Enforcer.enforce']
 REQUIRED_ANCHORS = ['oslo_policy.policy:Enforcer.load_rules']
@@ -140,10 +148,10 @@ def printed(enf):
 
 
 def note_files(w):
-    """Book-keeping for enforcers that do not overwrite: every name a file of this world has defined so far, and whether the values the
+    """Book-keeping for enforcers that do not overwrite: every definition (file, name) made so far, and whether the values the
     files give to the deprecated predecessor `old` have changed since the enforcer was built."""
-    for m in w['content'].values():
-        w['ever'].update(m)
+    for rel, m in w['content'].items():
+        w['ever'].update((rel, n) for n in m)
     dep = tuple(sorted((rel, m.get('old')) for rel, m in w['content'].items()))
     if w['dep0'] is None:
         w['dep0'] = dep
@@ -153,15 +161,16 @@ def note_files(w):
 
 def keeps_entries(w, with_dep):
     """Why a fresh enforcer loading the current files once is NOT the yardstick for this non-overwriting enforcer right now (None: it is).
-    Entries of the living store are only ever replaced by what a file defines now, so (1) a name no current file defines any more keeps
-    its old entry, and (2) the entry that was derived for `new` from the registered default and the file value of its deprecated
-    predecessor `old` (defaults are only consulted for names absent from the store) stays as derived at the first load."""
-    now = set()
-    for m in w['content'].values():
-        now.update(m)
+    Entries of the living store are only ever replaced by what a file that is read again defines now, so (1) a definition taken out of
+    a file (a name dropped by an edit, a file deleted) stays in force - also when another file still defines the name with another
+    value, because the main file is not read again when only the directory changed - and (2) the entry that was derived for `new` from
+    the registered default and the file value of its deprecated predecessor `old` (defaults are only consulted for names absent from
+    the store) stays as derived at the first load.  Judged: histories in which every definition made so far is still made by the same
+    file (values may have changed, definitions and files may have been added)."""
+    now = {(rel, n) for rel, m in w['content'].items() for n in m}
     if w['ever'] - now:
         return 'non-overwrite-enforcer-keeps-removed-names'
-    if with_dep and w['dep_changed'] and 'new' not in now:
+    if with_dep and w['dep_changed'] and not any(n == 'new' for _, n in now):
         return 'non-overwrite-enforcer-keeps-entry-derived-from-default'
     return None
 
